@@ -1,21 +1,21 @@
 SPECIFICATION Spec
 CONSTANTS
-  Mode = "weight"
-  N = 0
-  M = 2
-  P = 2
+  Mode = "param"
+  N = 3
+  M = 0
+  P = 0
   Vals = {0, 1}
-  MaxLen = 2
+  MaxLen = 3
   MaskLen = 2
-  Tols <- TolsW
+  Tols <- Tols4
   Gens <- Gens5
-  Targets <- NoTargets
-  MTols <- Tol1h
-  MGens = {1}
-  MTargets <- NoTargets
-  PrsCat <- NoSets
-  IdxCat <- NoSets
-  MaxMask = 2
+  Targets <- Targets3
+  MTols <- Tol0
+  MGens = {1, 2}
+  MTargets <- MTargets2
+  PrsCat <- PrsQuick
+  IdxCat <- IdxQuick
+  MaxMask = 0
   Part <- NoPart
 INVARIANT FixedPoint
 INVARIANT ReportIsDetectMinusMask
